@@ -126,7 +126,7 @@ def r3(ctx):
             yield VIOL("C14-R3", "get_signing_key/ok-payload", "Ok payload is not the provider's response", where=b.span_of_block(okb))
         else:
             yield PASS("C14-R3", "get_signing_key/ok", "Ok(key) only under the provider's Ok discriminant, returning that value", [site(b, okb, "Ok")])
-    kinds = []
+    kinds = set()
     for eb, i, s in errs:
         pay = b.slice_op(s["rv"]["ops"][0])
         if not pay.has_call(r"tower::ServiceExt::oneshot$"):
@@ -136,12 +136,15 @@ def r3(ctx):
         if not dc or "error::SignatureError" not in dc[0][1].get("resolved_full", ""):
             yield VIOL("C14-R3", "get_signing_key/err-no-downcast", "provider error not classified by downcast::<SignatureError>()", where=b.span_of_block(eb))
             continue
-        wrap = [a_ for a_ in pay.aggs if a_["stmt"]["rv"].get("adt") == "error::SignatureError"]
-        if wrap:
-            kinds.append(wrap[0]["stmt"]["rv"]["variant"])
-        else:
-            kinds.append("*downcast")
-    if sorted(kinds) != ["*downcast", "InternalServiceError"]:
+        for a_ in pay.aggs:
+            if a_["stmt"]["rv"].get("adt") == "error::SignatureError":
+                kinds.add(a_["stmt"]["rv"]["variant"])
+        # the downcast's Ok payload (the provider's own SignatureError) is moved out unchanged
+        dl = dc[0][1]["dest"]["local"]
+        for l_, fs in pay.fieldreads:
+            if fs and fs[0] == "0" and (l_ == dl or dl in b.slice([l_]).locals):
+                kinds.add("*downcast")
+    if kinds != {"*downcast", "InternalServiceError"}:
         yield VIOL("C14-R3", "get_signing_key/err-kinds", "error exits are %s (expected the provider's own SignatureError, or InternalServiceError wrapping it)" % sorted(kinds), where=loc(b.j["span"]))
     else:
         yield PASS("C14-R3", "get_signing_key/err-kinds", "Err(*sig_err) when the provider's error is a SignatureError, Err(InternalServiceError(e)) otherwise", [site(b, e[0], "Err") for e in errs])
